@@ -8,6 +8,7 @@ import (
 	"time"
 
 	"github.com/projectcalico/calico/felix/config"
+	"github.com/projectcalico/calico/libcalico-go/lib/backend/api"
 	"github.com/projectcalico/calico/libcalico-go/lib/backend/model"
 )
 
@@ -36,25 +37,38 @@ func VerifHostInfo(ip4 string, labels map[string]string) *HostInfo {
 	return &HostInfo{ip4Addr: ip4, labels: labels}
 }
 
-// VerifLoop wraps a real AsyncCalcGraph whose select loop is fed by hand: the input, flush-tick
-// and health-tick channels are unbuffered, so when a send returns the loop has finished every
-// earlier iteration (it is back in its select).
+// VerifLoop wraps a real AsyncCalcGraph whose select loop is fed by hand.  The three channels the main select
+// receives from are replaced by UNBUFFERED channels handed to the driver; the output channel is the driver's
+// (unbuffered) channel.  A send on Input or Ticks can only complete while the loop sits in its main select
+// (nothing else receives from them), i.e. after every earlier iteration has delivered all of its output.
+// Health is also received inside onEvent (while the loop is blocked on an output send).
+//
+// The calculation graph gets one extra input: an update whose key is an IPAMHandleKey (a key type the graph does
+// not register) carries a closure that is run by the dispatcher ON THE LOOP GOROUTINE, inside
+// CalcGraph.OnUpdates - exactly where real graph nodes call the sequencer's On* callbacks.
 type VerifLoop struct {
 	ACG    *AsyncCalcGraph
 	Seq    *EventSequencer
-	ticks  chan time.Time
-	health chan time.Time
+	Input  chan any
+	Ticks  chan time.Time
+	Health chan time.Time
 }
 
 func VerifNewLoop(conf *config.Config, out chan<- any) *VerifLoop {
 	acg := NewAsyncCalcGraph(conf, []chan<- any{out}, nil, nil)
-	acg.inputEvents = make(chan any)
-	l := &VerifLoop{ACG: acg, Seq: acg.eventSequencer, ticks: make(chan time.Time), health: make(chan time.Time)}
-	acg.flushTicks = l.ticks
-	acg.healthTicks = l.health
+	l := &VerifLoop{ACG: acg, Seq: acg.eventSequencer, Input: make(chan any), Ticks: make(chan time.Time), Health: make(chan time.Time)}
+	acg.inputEvents = l.Input
+	acg.flushTicks = l.Ticks
+	acg.healthTicks = l.Health
+	acg.CalcGraph.AllUpdDispatcher.Register(model.IPAMHandleKey{}, func(u api.Update) (filterOut bool) {
+		u.Value.(func())()
+		return false
+	})
 	go acg.loop()
 	return l
 }
 
-func (l *VerifLoop) SendTick()   { l.ticks <- time.Time{} }
-func (l *VerifLoop) SendHealth() { l.health <- time.Time{} }
+// VerifCallbacks is the update that makes the loop goroutine run f inside CalcGraph.OnUpdates.
+func VerifCallbacks(f func()) []api.Update {
+	return []api.Update{{KVPair: model.KVPair{Key: model.IPAMHandleKey{HandleID: "verif"}, Value: f}, UpdateType: api.UpdateTypeKVNew}}
+}
